@@ -94,8 +94,8 @@ class Encrypt(Machine):
         kstyle = s.choice(["plain", "plain", "dotted", "mixed"])
         keys = [f"k{i}" if kstyle == "plain" or (kstyle == "mixed" and s.chance(0.5))
                 else s.choice([f"fwenc.gen{i}", f"a.b.k{i}", f"k{i}.bin", f"k{i}.v2"]) for i in range(nk)]
-        fws = [[f"fw{i}", s.choice(SIZES)] for i in range(nf)]
-        dirs = ["dA"] + (["dB"] if s.chance(0.4) else [])
+        fws = [[self.odd_stem(s, f"fw{i}"), s.choice(SIZES)] for i in range(nf)]
+        dirs = [s.choice(["dA", "dA", "d.A", "d A", ".dA"])] + (["dB"] if s.chance(0.4) else [])
         ops = [{"kind": "setup", "i": 0, "keys": keys, "fws": fws, "dirs": dirs}]
         if long_history:
             n = s.choice([200, 500]) if tier == "quick" else s.choice([500, 1000, 2000])
